@@ -299,6 +299,33 @@ def deserialize_then_verify(fb, ctx):
     ctx.check(not extra, "WHO", "UnsafeLegacy verification mode is only selected by the unsafe_* entry point", "WHO|UnsafeLegacy", f"ThirdPartyVerificationMode::UnsafeLegacy constructed in {extra}", "biscuit-auth/src/format/mod.rs")
 
 
+def mode_selection_rules(fb, ctx):
+    """verify_inner chooses the external-signature scheme per block: the legacy scheme (bound only to the previous public key, so
+    a third-party block can be replayed on another token) is selected only for (block version 0, caller asked for UnsafeLegacy)."""
+    b = fb.body(F + "::verify_inner")
+    h = fb.hir_of(b)
+    ms = [m for m in hirq.matches_in(h["body"]) if "ThirdPartyVerificationMode" in (m.get("sty") or "")]
+    where = f"{b['file']}:{ms[0]['ln'] if ms else b['line']}"
+    if len(ms) != 1:
+        ctx.fail("TABLE", "verify_inner selects the external-signature scheme with one match on (block.version, requested mode)", "TABLE|verify_inner|mode|anchor", f"{len(ms)} matches over ThirdPartyVerificationMode", where)
+        return
+    m = ms[0]
+    M = "biscuit_auth::format::ThirdPartyVerificationMode::"
+    table = hirq.cell_table(m, [["lit:0", "lit:other"], [M + "UnsafeLegacy", M + "PreviousSignatureHashing"]])
+    got = {}
+    for cell, i in table.items():
+        body = strip_h(m["arms"][i]["body"])
+        got[(cell[0].split(":")[1], cell[1].split("::")[-1])] = (hirq.ctor_name(body) or (body.get("res", {}).get("path") if isinstance(body, dict) and body.get("k") == "path" else None) or "?").split("::")[-1]
+    want = {("0", "UnsafeLegacy"): "UnsafeLegacy", ("0", "PreviousSignatureHashing"): "PreviousSignatureHashing", ("other", "UnsafeLegacy"): "PreviousSignatureHashing", ("other", "PreviousSignatureHashing"): "PreviousSignatureHashing"}
+    ctx.check(got == want, "TABLE", "verify_inner: legacy external signatures only for (version 0, UnsafeLegacy requested)", "TABLE|verify_inner|mode", f"(block version, requested mode) -> scheme is {got}; the specification allows the legacy scheme only in the cell (0, UnsafeLegacy)", where)
+
+
+def strip_h(n):
+    while isinstance(n, dict) and n.get("k") == "block" and not n.get("stmts") and n.get("expr") is not None:
+        n = n["expr"]
+    return n
+
+
 def decode_gates(fb, ctx):
     b = fb.body(F + "::deserialize")
     h = fb.hir_of(b)
